@@ -57,12 +57,12 @@ def plain(f):
 
 PROFILES = {
     # which functions, pure bodies?, extra event kinds, threads
-    "C01": dict(sel=lambda f: True, pure=True, events=["tick", "invw", "tag", "invc"], threads=2),
-    "C02": dict(sel=lambda f: f["sig"] in (1, 2, 4, 5), pure=True, events=[], threads=2),
+    "C01": dict(lifetime=True, sel=lambda f: True, pure=True, events=["tick", "invw", "tag", "invc"], threads=2),
+    "C02": dict(sel=lambda f: f["sig"] in (1, 2, 4, 5, 6, 7, 8), pure=True, events=[], threads=2),
     "C03": dict(sel=plain, pure=True, events=[], threads=3),
-    "C09": dict(sel=lambda f: f["is_result"] and not f["cache_if"], pure=False, events=["tick"], threads=1),
-    "C10": dict(sel=lambda f: f["cache_if"], pure=False, events=["tick"], threads=1),
-    "C11": dict(sel=lambda f: f["inval_on"], pure=False, events=["tick"], threads=1),
+    "C09": dict(lifetime=True, sel=lambda f: f["is_result"] and not f["cache_if"], pure=False, events=["tick"], threads=1),
+    "C10": dict(lifetime=True, sel=lambda f: f["cache_if"], pure=False, events=["tick"], threads=1),
+    "C11": dict(lifetime=True, sel=lambda f: f["inval_on"], pure=False, events=["tick"], threads=1),
     "C12": dict(sel=lambda f: bool(f["tags"] or f["events"] or f["deps"]) or f["idx"] % 7 == 0, pure=True,
                 events=["tag", "event", "dep", "invc", "invcn"], threads=1, heavy_inval=True),
     "C13": dict(sel=lambda f: f["fl"] != "t" or f["idx"] % 5 == 0, pure=True,
@@ -71,11 +71,11 @@ PROFILES = {
     "C20": dict(sel=lambda f: f["gates"] > 0, pure=False, events=[], threads=3, async_susp=True),
     "C04": dict(sel=lambda f: f["limit"] is not None and not f["inval_on"], pure=True, events=["invw", "invall", "tag"], threads=2),
     "C05": dict(sel=lambda f: f["mem"] is not None, pure=False, events=["invw"], threads=2),
-    "C06": dict(sel=lambda f: f["ttl"] is not None, pure=True, events=["tick", "invw"], threads=2),
+    "C06": dict(lifetime=True, sel=lambda f: f["ttl"] is not None, pure=True, events=["tick", "invw"], threads=2),
     "C07": dict(sel=lambda f: f["pol"] in ("fifo", "lru") and (f["limit"] or f["mem"]), pure=True, events=["invw", "invall"], threads=1),
     "C08": dict(sel=lambda f: f["pol"] in ("lfu", "arc", "tlru") and (f["limit"] or f["mem"]), pure=True, events=["invw", "tick"], threads=1),
     "C15": dict(sel=lambda f: f["fl"] != "t", pure=True, events=["sget", "sreset", "sgetn", "tick", "invw"], threads=3),
-    "C19": dict(sel=lambda f: True, pure=True, events=["tick", "tag", "invw", "sget"], threads=2),
+    "C19": dict(lifetime=True, sel=lambda f: True, pure=True, events=["tick", "tag", "invw", "sget"], threads=2),
     "C16": dict(sel=lambda f: True, pure=False, events=["tick", "tag", "event", "dep", "invc", "invw", "invall", "sget", "sreset"], threads=3),
 }
 
@@ -149,9 +149,72 @@ def gen_async_case(r, fns):
     return [f, g], evs
 
 
+def gen_lifetime_case(r, fns, prof):
+    """lifetime probes on a function with ttl: store, hits below T, optionally a second store of the same key
+    (stale refresh through invalidate_on, or invalidation + call) whose life starts THEN, a refresh that
+    cache_if rejects after the entry expired, and lookups just before / at / after the end of the entry's life;
+    other keys are stored in between so that limits and evictions are in play"""
+    pool = [f for f in fns if prof["sel"](f) and f["ttl"] and f["sig"] == 0]
+    if not pool:
+        return None
+    f = r.pick(pool)
+    T = f["ttl"] * 1000
+    step = 1000 if f["fl"] == "a" else 250
+    cap = (f["limit"] or 3) + 2
+    vc = [0]
+
+    def ev(t, x, inv=0, cif=1, ok=True):
+        if prof["pure"]:
+            v, okk, ln = (f["idx"] * 37 + x * 11) % 500 + 1, ((x % 3 != 0) if f["is_result"] else True), LENS[x % 5]
+        else:
+            vc[0] += 1
+            v, okk, ln = vc[0], ok, 8
+        return (t, "call %d %d 0 %s %d %d %d %d" % (f["idx"], x, "ok" if okk else "err", v, ln, inv, cif))
+    events = []
+    x = 1 if (prof["pure"] and f["is_result"]) else r.below(cap)
+    if prof["pure"] and f["is_result"] and x % 3 == 0:
+        x += 1
+    t0 = r.below(3) * step
+    events.append(ev(t0, x))
+    for d in sorted(set(r.below(max(1, T // step)) * step for _ in range(r.below(3)))):
+        events.append(ev(t0 + d, x))
+    if T > step and r.chance(1, 2):
+        d2 = (1 + r.below(T // step - 1)) * step
+        if f["inval_on"]:
+            events.append(ev(t0 + d2, x, inv=1))
+        else:
+            events.append((t0 + d2, "invw %d %d" % (f["idx"], x)))
+            events.append(ev(t0 + d2, x))
+        t0 += d2
+    events.append(ev(t0 + T - step, x))
+    if f["cache_if"] and not prof["pure"] and r.chance(1, 2):
+        # the entry expires, the refresh is rejected; then other keys are accepted and must be served
+        events.append(ev(t0 + T, x, cif=0))
+        for y in range(1 + r.below(cap)):
+            if y != x:
+                events.append(ev(t0 + T, y))
+                events.append(ev(t0 + T, y))
+    else:
+        events.append(ev(t0 + T, x))
+        events.append(ev(t0 + T + step, x))
+    for _ in range(r.below(4)):
+        y = r.below(cap)
+        events.append(ev(r.below(4) * step + r.below(T // step + 1) * step, y))
+    events.sort(key=lambda e: e[0])
+    evs, now = [], 0
+    for t, body in events:
+        evs.append("E %d %s" % (t - now, body))
+        now = t
+    return [f], evs
+
+
 def gen_case(r, fns, prof, nev):
     if prof.get("async_susp"):
         return gen_async_case(r, fns)
+    if prof.get("lifetime") and r.chance(1, 4):
+        c = gen_lifetime_case(r, fns, prof)
+        if c:
+            return c
     if prof.get("heavy_inval") and r.chance(1, 6):
         return gen_chain_case(r, fns)
     pool = [f for f in fns if prof["sel"](f)]
